@@ -48,12 +48,10 @@ where
 
     pub fn to_string(&self) -> String {
         let mut result = "".to_string();
+        // Newest item first: the cell before `start` holds the newest item
         for i in 0..self.size() {
-            let mut index = self.start as i32 - i as i32;
-            if index < 0 {
-                index += self.capacity as i32;
-            }
-             result.push_str(&format!(" {}", self.container[index as usize]));
+            let index = (self.start + self.capacity - 1 - i) % self.capacity;
+            result.push_str(&format!(" {}", self.container[index]));
         }
         result.trim().to_string()
     }
